@@ -65,7 +65,11 @@ func checkC03(c *Check) {
 	if r == nil {
 		return
 	}
-	rs, probs := runSuite(r, tokenSuite(), []modelOpts{{Ast: true}})
+	specs := tokenSuite()
+	if c.Tier == "thorough" {
+		specs = append(specs, thoroughSpecs(c.Seed, 400)...)
+	}
+	rs, probs := runSuite(r, specs, []modelOpts{{Ast: true}})
 	for _, p := range probs {
 		c.Und("R-anchor", "tree.(*Tree).Compile/emission region", "", p)
 	}
@@ -115,7 +119,11 @@ func checkC13(c *Check) {
 	if r == nil {
 		return
 	}
-	rs, probs := runSuite(r, tokenSuite(), []modelOpts{{Ast: true}, {Ast: false}, {Ast: true, Inline: true}})
+	specs13 := tokenSuite()
+	if c.Tier == "thorough" {
+		specs13 = append(specs13, thoroughSpecs(c.Seed, 300)...)
+	}
+	rs, probs := runSuite(r, specs13, []modelOpts{{Ast: true}, {Ast: false}, {Ast: true, Inline: true}})
 	for _, p := range probs {
 		c.Und("R-anchor", "tree.(*Tree).Compile/emission region", "", p)
 	}
